@@ -262,7 +262,8 @@ def _full_resync(ctx):
     ctx.check(res_l is not None, "C07.D4", "errors-accumulated", site(b), ok="errors are accumulated in `res` and returned at the end", bad="no accumulated result variable")
 
 
-STATEFUL_TYPES = ("Mutex<", "RwLock<", "RefCell<", "Cell<", "Atomic", "HashMap<", "HashSet<", "BTreeMap<", "BTreeSet<", "DashMap<", "DashSet<", "ArcSwap", "Vec<", "VecDeque<", "OnceCell", "OnceLock", "Lazy<")
+# the loop entry points take &self, so only interior mutability can carry state from one round to the next
+STATEFUL_TYPES = ("Mutex<", "RwLock<", "RefCell<", "Cell<", "Atomic", "DashMap<", "DashSet<", "ArcSwap", "OnceCell", "OnceLock", "Lazy<", "mpsc::", "watch::", "broadcast::")
 LOOP_MODULES = ("coordinator::core::", "coordinator::sync::", "coordinator::detector::", "coordinator::migration::", "coordinator::recover::")
 
 
